@@ -55,9 +55,11 @@ func pemPub(pub any) []byte {
 	return pem.EncodeToMemory(&pem.Block{Type: "PUBLIC KEY", Bytes: b})
 }
 
-func c03Keys() []c03Key {
+func c03Keys() []c03Key { return c03KeysWith([]byte(hx.HSKey)) }
+
+// a fresh key of every family (the HMAC secret is given)
+func c03KeysWith(secret []byte) []c03Key {
 	var ks []c03Key
-	secret := []byte(hx.HSKey)
 	for _, a := range []string{"HS256", "HS384", "HS512"} {
 		ks = append(ks, c03Key{alg: a, signKey: secret, hubKey: secret, verify: func(alg string, in, sig []byte) bool {
 			_, h := hashFor(alg)
@@ -203,14 +205,21 @@ func runC03(a args) error {
 	out := hx.NewOut(a.out, "Jwt", "jwt_case", "jwt_agree", "jwt_ok")
 	out.ShardSize = 40
 	keys := c03Keys()
+	keysB := c03KeysWith([]byte("another-secret-for-the-other-role-0123456789"))
 	now := time.Now()
-	perKey := a.n
-	for ki, k := range keys {
-		// the hub: publisher and subscriber keys of the same family but the subscriber's is another key when possible
+	perKey := (a.n + 1) / 2
+	for kv := 0; kv < 2*len(keys); kv++ {
+		ki := kv / 2
+		k := keys[ki]
+		// the hub: the subscriber's key is of another algorithm (even kv) or another key of the SAME algorithm (odd kv):
+		// publisher and subscriber keys are not interchangeable either way
 		other := keys[(ki+1)%len(keys)]
+		if kv%2 == 1 {
+			other = keysB[ki]
+		}
 		for _, anonymous := range []bool{false, true} {
 			opts := []mercure.Option{mercure.WithLogger(hx.Logger), mercure.WithTransport(mercure.NewLocalTransport()), mercure.WithHeartbeat(0), mercure.WithWriteTimeout(0),
-				mercure.WithPublisherJWT(k.hubKey, k.alg), mercure.WithSubscriberJWT(other.hubKey, other.alg), mercure.WithSubscriptions()}
+				mercure.WithPublisherJWT(k.hubKey, k.alg), mercure.WithSubscriberJWT(other.hubKey, other.alg), mercure.WithSubscriptions(), mercure.WithPublishOrigins([]string{"*"})}
 			if anonymous {
 				opts = append(opts, mercure.WithAnonymous())
 			}
@@ -222,6 +231,13 @@ func runC03(a args) error {
 				claims := map[string]any{"mercure": map[string]any{"publish": []string{"*"}, "subscribe": []string{"*"}}}
 				offset := []int64{0, 0, 3600, -3600, 2, -2}[r.Intn(6)]
 				kind := r.Intn(3)
+				// the first 18 draws of every hub are systematic: a token correctly signed for the endpoint's role but expired
+				// (resp. not yet valid), on every endpoint through every carrier
+				systematic := n < 18
+				if systematic {
+					kind = n / 9
+					offset = []int64{-3600, 3600}[kind]
+				}
 				if offset != 0 && kind == 0 {
 					claims["exp"] = now.Unix() + offset
 				} else if offset != 0 && kind == 1 {
@@ -232,6 +248,12 @@ func runC03(a args) error {
 				issuer := k
 				if r.Chance(0.5) {
 					issuer = other
+				}
+				if systematic {
+					issuer = k
+					if n%3 != 0 {
+						issuer = other
+					}
 				}
 				t := jwt.NewWithClaims(jwt.GetSigningMethod(issuer.alg), jwt.MapClaims(claims))
 				valid, err := t.SignedString(issuer.signKey)
@@ -245,24 +267,52 @@ func runC03(a args) error {
 					m = muts[0]
 				}
 				endpoint := []string{"publish", "subscribe", "subscriptions"}[r.Intn(3)]
+				if systematic {
+					m = muts[0]
+					endpoint = []string{"publish", "subscribe", "subscriptions"}[n%3]
+				}
 				role := k // the key and algorithm configured for the endpoint's role
 				if endpoint != "publish" {
 					role = other
 				}
-				hdr := http.Header{"Authorization": {"Bearer " + m.tok}}
+				// the carrier: Authorization header, authorization query parameter, or the cookie (with an Origin for the POST)
+				carrier := []string{"header", "query", "cookie"}[r.Intn(3)]
+				if systematic {
+					carrier = []string{"header", "query", "cookie"}[(n/3)%3]
+				}
+				hdr := http.Header{}
+				qs := ""
+				switch carrier {
+				case "header":
+					hdr.Set("Authorization", "Bearer "+m.tok)
+				case "query":
+					qs = "authorization=" + url.QueryEscape(m.tok)
+				case "cookie":
+					hdr.Set("Cookie", "mercureAuthorization="+m.tok)
+					hdr.Set("Origin", "https://example.com")
+				}
 				var status int
 				reqAt := time.Now()
 				switch endpoint {
 				case "publish":
-					status, _ = hx.Post(hub, url.Values{"topic": {"t"}, "data": {"d"}}, hdr)
+					rq := httptest.NewRequest(http.MethodPost, "/.well-known/mercure?"+qs, strings.NewReader(url.Values{"topic": {"t"}, "data": {"d"}}.Encode()))
+					rq.Header = hdr
+					rq.Header.Set("Content-Type", "application/x-www-form-urlencoded")
+					w := httptest.NewRecorder()
+					hub.ServeHTTP(w, rq)
+					status = w.Code
 				case "subscriptions":
-					rq := httptest.NewRequest(http.MethodGet, "/.well-known/mercure/subscriptions", nil)
+					rq := httptest.NewRequest(http.MethodGet, "/.well-known/mercure/subscriptions?"+qs, nil)
 					rq.Header = hdr
 					w := httptest.NewRecorder()
 					hub.ServeHTTP(w, rq)
 					status = w.Code
 				case "subscribe":
-					st := hx.Subscribe(hub, "/.well-known/mercure?topic=t", hdr)
+					target := "/.well-known/mercure?topic=t"
+					if qs != "" {
+						target += "&" + qs
+					}
+					st := hx.Subscribe(hub, target, hdr)
 					deadline := time.Now().Add(2 * time.Second)
 					for time.Now().Before(deadline) && st.W.NumWrites() == 0 && !st.Finished(0) {
 						time.Sleep(50 * time.Microsecond)
@@ -316,9 +366,9 @@ func runC03(a args) error {
 				granted := status >= 200 && status < 300
 				term := fmt.Sprintf("{| jw_cfg_alg := %s; jw_now := (%d)%%Z; jw_token := %s; jw_b64 := %s; jw_alg := %s; jw_claims := %s; jw_known := %s; jw_sig_ok := %s; jw_granted := %s |}",
 					ce.Str(role.alg), reqAt.Unix(), ce.Str(m.tok), ce.List(b64T), algT, claimsT, ce.Bool(known), ce.Bool(sigOK), ce.Bool(granted))
-				out.Add(term, map[string]any{"publisher_alg": k.alg, "subscriber_alg": other.alg, "token_issued_with": issuer.alg, "anonymous": anonymous, "mutation": m.name, "endpoint": endpoint, "status": status, "exp_or_nbf_offset": offset,
+				out.Add(term, map[string]any{"publisher_alg": k.alg, "subscriber_alg": other.alg, "token_issued_with": issuer.alg, "anonymous": anonymous, "mutation": m.name, "endpoint": endpoint, "carrier": carrier, "status": status, "exp_or_nbf_offset": offset,
 					"independent_verifier": map[string]any{"signature_ok": sigOK, "alg_known": known}},
-					m.name != "valid" || issuer.alg != role.alg, "role-alg:"+role.alg, fmt.Sprintf("issued-for-this-role:%v", issuer.alg == role.alg), "mutation:"+m.name, "endpoint:"+endpoint, fmt.Sprintf("status:%d", status), fmt.Sprintf("anonymous:%v", anonymous))
+					m.name != "valid" || issuer.alg != role.alg, "role-alg:"+role.alg, fmt.Sprintf("issued-for-this-role:%v", issuer.alg == role.alg), "mutation:"+m.name, "endpoint:"+endpoint, "carrier:"+carrier, fmt.Sprintf("same-alg-other-key:%v", kv%2 == 1), fmt.Sprintf("status:%d", status), fmt.Sprintf("anonymous:%v", anonymous))
 			}
 			_ = hub.Stop()
 		}
